@@ -211,7 +211,16 @@ func parseString(s *sqliState) int {
 }
 
 func parseWord(s *sqliState) int {
-	length := strLenCSpn(s.input[s.pos:], s.length-s.pos, wordAcceptTable)
+	// Only the first tokenSize-1 bytes of a word are kept, and only they are
+	// inspected for a keyword followed by '.' or '`'. Find the end of the word
+	// inside that window first; the rest of a longer word is scanned below,
+	// once it is known that the word is consumed as a whole.
+	remaining := s.length - s.pos
+	window := remaining
+	if window > tokenSize-1 {
+		window = tokenSize - 1
+	}
+	length := strLenCSpn(s.input[s.pos:], window, wordAcceptTable)
 	s.current.assign(sqliTokenTypeBareWord, s.pos, length, s.input[s.pos:])
 
 	// now we need to look inside what we good for "." and "`"
@@ -228,6 +237,10 @@ func parseWord(s *sqliState) int {
 				return s.pos + i
 			}
 		}
+	}
+
+	if length == window && window < remaining {
+		length += strLenCSpn(s.input[s.pos+length:], remaining-length, wordAcceptTable)
 	}
 
 	// do normal lookup with word including '.'
